@@ -52,14 +52,18 @@
     silence_deadline       with a scheduler that never lets a tick pass k's
                            deadline, k cannot be listed later than
                            timer + (rank − 1)·T,  T = max(apduTimeout, 4·segmentTimeout)
+    gone_after_deadline    … hence once the clock has passed that deadline k is gone
     arrival_extends_once   a frame arrival leaves k's timer or re-arms it to at
                            most now + T and touches no other timer;
                            `time_bound`: ≤ (2·retries + 1)·T after the last arrival
   combination
-    exactly_one            a generation that ends in silence long enough:
-                           at most one confirmation in all of it, and if the
+    exactly_one            a generation that ends in silence, k gone at the end:
+                           at most one confirmation in all of it; if the
                            transaction is still pending when silence begins,
-                           exactly one (the Abort) — in bounded virtual time.
+                           exactly one (the Abort); the state machines hand up
+                           exactly one in any case
+    exactly_one_in_bounded_time   … with "k gone" discharged by the clock
+                           having passed the deadline (prompt scheduler)
 
   Deviation from DESIGN §7 (found while proving): the bound "retries + 1
   expiries" holds for unsegmented requests and for a request still being
@@ -75,9 +79,26 @@
   transmission raises ValueError and `await_confirmation_timeout` skips
   `self.retryCount = saveCount`, the counter restarts at 0 — no termination).
 
-  IOCB layer: BacVerif.Model.Iocb, section at the end (`complete_once`,
-  `finished_is_final`, `abort_after_done_noop`, `queue_advances`,
-  `queue_never_stuck`, `queue_empty_forgotten`).
+  IOCB layer ("directly or through an I/O control block", "no … queue entry"):
+  BacVerif.Model.Iocb, namespace BacVerif.C04.Io at the end of this file —
+    complete_once / callbacks_exact   over ANY sequence of request_io, application
+                           aborts, confirmations of any class from any address
+                           and deferred calls: callbacks of an IOCB fired =
+                           [the IOCB is finished]; never twice, never early
+    finished_is_final / abort_after_done_noop   a finished IOCB keeps state,
+                           response, error for ever; no second callback
+    queue_released         a confirmation (ack / error class) for the active IOCB
+                           of its source address releases that queue and defers
+                           its trigger; with nothing waiting the queue is
+                           forgotten (queue_empty_forgotten)
+    queue_advances         the deferred trigger on an idle queue makes the head
+                           of the waiting list active and sends it — only that
+  Partial (IOCB): the two queue theorems are per step with local hypotheses
+  (serial of the queue object unique, head of the list PENDING); the global
+  invariant "an idle queue with waiting IOCBs always has a trigger pending" is
+  evaluated by the lockstep oracle (`queue-stuck`), not proved.  Known and NOT
+  claimed (DESIGN §7 C11 "Noted"): `_app_complete` matches by address only —
+  last example of the file.
 -/
 import BacVerif.Lemmas.TsmC04Silent
 import BacVerif.Lemmas.IocbQueue
